@@ -280,7 +280,21 @@ void janet_to_string_b(JanetBuffer *buffer, Janet x) {
 /* Check if a symbol or keyword contains no symbol characters */
 static int contains_bad_chars(const uint8_t *sym, int issym) {
     int32_t len = janet_string_length(sym);
-    if (len && issym && sym[0] >= '0' && sym[0] <= '9') return 1;
+    if (issym) {
+        /* A symbol must read back as a symbol, not as nothing, a keyword, a constant or a number. */
+        if (len == 0 || sym[0] == ':') return 1;
+        if (sym[0] >= '0' && sym[0] <= '9') return 1;
+        if (!janet_cstrcmp(sym, "nil") || !janet_cstrcmp(sym, "true") || !janet_cstrcmp(sym, "false")) return 1;
+        if (sym[0] == '-' || sym[0] == '+' || sym[0] == '.') {
+#ifdef JANET_INT_TYPES
+            Janet num;
+            if (!janet_scan_numeric(sym, len, &num)) return 1;
+#else
+            double num;
+            if (!janet_scan_number(sym, len, &num)) return 1;
+#endif
+        }
+    }
     if (!janet_valid_utf8(sym, len)) return 1;
     for (int32_t i = 0; i < len; i++) {
         if (!janet_is_symbol_char(sym[i])) return 1;
